@@ -52,6 +52,11 @@ SEED_FLAVOUR = {
        "cleared and when, error handling / exception classes, retry or loop structure, sharing between objects, defaults).",
 }
 
+SEED_FLAVOUR[4] = ("The two variants must break the property in different ways and at different places: variant a through TWO COOPERATING SITES that each look fine "
+                   "alone (a helper and its caller, an encoder and its decoder, a setter and the consumer of what it stores, a constant and the code that "
+                   "assumes its value), variant b in a RARELY EXERCISED BRANCH (an error or retry path, a boundary length or value, an optional / legacy "
+                   "feature, the second iteration of a loop, the re-use of an object that is normally fresh).")
+
 NEUTRAL = '''You are helping to evaluate a static verification tool for the open-source Python project mill1000/midea-msmart (async client for local LAN control of Midea air conditioners). Your role: produce BEHAVIOUR-PRESERVING refactorings, so that we can check the tool does not raise false alarms on code that is still correct.
 
 ''' + COMMON + '''
@@ -79,6 +84,9 @@ NEUTRAL_FLAVOUR = {
        "the order of independent statements, replace flags by early exits or the reverse, and change how intermediate values are represented "
        "(tuples vs locals, memoryview vs bytes, int vs enum member, precomputed table vs computed value).",
 }
+
+
+NEUTRAL_FLAVOUR[4] = NEUTRAL_FLAVOUR[3]
 
 
 def sh(cmd):
